@@ -2,6 +2,7 @@ use crate::common::{machinery_failure, Run};
 use serde_json::Value;
 
 pub mod c20;
+pub mod c23;
 pub mod c26;
 pub mod c27;
 pub mod c40;
@@ -9,6 +10,7 @@ pub mod c40;
 pub fn run(id: &str, run: &mut Run) {
     match id {
         "C20" => c20::run(run),
+        "C23" => c23::run(run),
         "C26" => c26::run(run),
         "C27" => c27::run(run),
         "C40" => c40::run(run),
@@ -19,6 +21,7 @@ pub fn run(id: &str, run: &mut Run) {
 pub fn replay(id: &str, case: &Value, run: &mut Run) {
     match id {
         "C20" => c20::replay(case, run),
+        "C23" => c23::replay(case, run),
         "C26" => c26::replay(case, run),
         "C27" => c27::replay(case, run),
         "C40" => c40::replay(case, run),
